@@ -1,5 +1,6 @@
 import Chain33Model.Base.Wire
 import Chain33Model.Model.C10
+import Chain33Model.Model.C10Join
 open Wire
 
 /-!
@@ -105,7 +106,90 @@ def step (st : Option Table) (line : String) : Option Table × String :=
   | ["scan"], some t => (st, scan t.db)
   | _, _ => bad
 
+/-! join tables: `jreset` | `jr <kind> <gid> <status>` | `jl <kind> <tx> <gid> <addr>` | `jsave` |
+`jlist <index> <left|-> <right>` (text tokens, as harness/cmd/h_c10/join.go) -/
+
+open C10J in
+def jbytes (s : String) : C09.Bytes := s.toUTF8.toList.map (·.toNat)
+
+def jtext (b : C09.Bytes) : String := String.ofList (b.map Char.ofNat)
+
+open C10J in
+def jres : C10J.Res → String
+  | .ok => "ok" | .dup => "dup" | .notfound => "notfound" | .invalid => "invalid"
+  | .decode => "decode" | .metaErr => "err:meta" | .panic => "panic"
+
+open C10J in
+def jerr : SaveErr → String
+  | .notfound => "notfound" | .decode => "decode" | .metaE => "err:meta" | .panic => "panic"
+
+open C10J in
+def jshowKVs (kvs : List C10J.KV) : String :=
+  -- sorted by key (the order of a kv list depends on Go map iteration in mergeCache)
+  let sorted := kvs.foldl (fun st kv => C09.put st kv.1 kv.2) ([] : C09.Store (Option C10J.Val))
+  if sorted.isEmpty then "-" else
+  ",".intercalate (sorted.map (fun kv => (match kv.2 with | none => "D:" | some _ => "S:") ++ hexN kv.1))
+
+open C10J in
+def jrowText (lr : GRow × GRow) : String :=
+  let f (r : GRow) (n : C09.Bytes) : String := match fieldOf r n with | some v => jtext v | none => "?"
+  jtext lr.1.pk ++ "/" ++ f lr.1 nGameID ++ "/" ++ f lr.1 nAddr ++ "/" ++ jtext lr.2.pk ++ "=" ++ f lr.2 nStatus
+
+structure JState where
+  jt : C10J.JT
+  db : C10J.TDB
+
+open C10J in
+def jstep (st : Option JState) (line : String) : Option JState × String :=
+  let bad := (st, "bad-op")
+  match words line, st with
+  | ["jreset"], _ => (some ⟨initJT, []⟩, "ok")
+  | _, none => bad
+  | ["jr", kind, gid, status], some s =>
+    if status.toNat?.isNone && !(status.startsWith "-") then bad else
+    let d := rightRow (jbytes gid) (jbytes status)
+    let r :=
+      if kind == "add" then some (C10J.add s.db s.jt.right d)
+      else if kind == "replace" then some (C10J.replace s.db s.jt.right d)
+      else if kind == "update" then some (C10J.update s.db s.jt.right (jbytes gid) d)
+      else if kind == "del" then some (C10J.del s.db s.jt.right (jbytes gid))
+      else none
+    (match r with
+     | some (t', res) => (some { s with jt := { s.jt with right := t' } }, jres res)
+     | none => bad)
+  | ["jl", kind, tx, gid, addr], some s =>
+    let d := leftRow (jbytes tx) (jbytes gid) (jbytes addr)
+    let r :=
+      if kind == "add" then some (C10J.add s.db s.jt.left d)
+      else if kind == "replace" then some (C10J.replace s.db s.jt.left d)
+      else if kind == "update" then some (C10J.update s.db s.jt.left (jbytes tx) d)
+      else if kind == "del" then some (C10J.del s.db s.jt.left (jbytes tx))
+      else none
+    (match r with
+     | some (t', res) => (some { s with jt := { s.jt with left := t' } }, jres res)
+     | none => bad)
+  | ["jsave"], some s =>
+    (match saveJoin s.db s.jt with
+     | .ok (kvs, jt') => (some ⟨jt', C10J.applyKVs s.db kvs⟩, "ok " ++ jshowKVs kvs)
+     | .error (e, jt') => (some { s with jt := jt' }, jerr e))
+  | ["jlist", index, l, r], some s =>
+    let lk := if l == "-" then [] else jbytes l
+    (match joinList s.db s.jt (jbytes index) (joinKey lk (jbytes r)) true with
+     | .ok rows => (st, ",".intercalate (rows.map jrowText))
+     | .error e => (st, jerr e))
+  | _, _ => bad
+
+def stepAll (st : Option C10.Table × Option JState) (line : String) :
+    (Option C10.Table × Option JState) × String :=
+  if line.startsWith "j" then
+    let (j', o) := jstep st.2 line
+    ((st.1, j'), o)
+  else
+    let (t', o) := step st.1 line
+    ((t', st.2), o)
+
 end DrvC10
 
 def main : IO Unit := do
-  loopState (← IO.getStdin) (← IO.getStdout) DrvC10.step (none : Option C10.Table)
+  loopState (← IO.getStdin) (← IO.getStdout) DrvC10.stepAll
+    ((none, none) : Option C10.Table × Option DrvC10.JState)
